@@ -179,7 +179,7 @@ func contentBytes(c contentSpec) []byte {
 	if strings.ContainsAny(string(b), "'") {
 		panic("c20: quote in stub metadata")
 	}
-	return []byte("#!/bin/sh\n" + salt + "echo '" + string(b) + "'\n")
+	return []byte("#!/bin/sh\n" + salt + "printf '%s\\n' '" + string(b) + "'\n")
 }
 
 // truth: what a content answers, established by running it directly (not through notation-go).
